@@ -15,7 +15,7 @@ PID = "C18"
 LEVEL = "exploration"
 ANCHORS = ["onl/netdev/demux.py", "onl/netdev/switch.py", "onl/netdev/hub.py", "onl/netdev/splitter.py",
            "onl/topo/fattree.py", "onl/flow/flow.py"]
-RULE = ("random tables / output lists / end maps / flow ids for FlowDemux, FIBDemux, SimplePacketSwitch, FairPacketSwitch; "
+RULE = ("random tables / output lists / end maps (some end devices falsy while empty) / flow ids for FlowDemux, FIBDemux, SimplePacketSwitch, FairPacketSwitch; "
         "random hub populations with and without port devices; Splitter / NSplitter with 2-5 outputs; FatTree(k) for even k "
         "(2,4,6,8 quick; up to 12 thorough) with 1-60 random flows (any seed), with and without reverse TCP entries; "
         "end-to-end fat trees (k in {2,4}) for SP/WFQ/DRR/VirtualClock with flows sharing classes; non-trivial = the case "
